@@ -259,6 +259,41 @@ fn exec(
             };
             json!({"frames": frames})
         }
+        "read_slow" => {
+            // a streaming read whose consumer stalls after k frames while the clock moves on
+            let ctx = opt_id(&req["ctx"]);
+            let last = opt_id(&req["last"]);
+            let limit = req["limit"].as_u64().map(|n| n as usize);
+            let k = req["k"].as_u64().unwrap_or(0) as usize;
+            let advance = req["advance_ms"].as_u64().unwrap_or(0);
+            verif::set_caps(None, Some(1));
+            let opts = ReadOptions::builder()
+                .follow(FollowOption::Off)
+                .maybe_last_id(last)
+                .maybe_limit(limit)
+                .maybe_context_id(ctx)
+                .build();
+            let (frames, got_before) = rt.block_on(async {
+                let mut rx = store.read(opts).await;
+                let mut v = vec![];
+                while v.len() < k {
+                    match rx.recv().await {
+                        Some(f) => v.push(frame_json(&f)),
+                        None => break,
+                    }
+                }
+                let got_before = v.len();
+                // let the history thread run into the full channel, then move the clock
+                tokio::time::sleep(Duration::from_millis(8)).await;
+                verif::advance_clock(advance);
+                while let Some(f) = rx.recv().await {
+                    v.push(frame_json(&f));
+                }
+                (v, got_before)
+            });
+            verif::set_caps(None, None);
+            json!({"frames": frames, "k": got_before})
+        }
         "get" => {
             let id = opt_id(&req["id"]).unwrap();
             json!({"frame": store.get(&id).map(|f| frame_json(&f))})
